@@ -428,12 +428,43 @@ def _evaluate_plain(ctx, case):
         eval_uuid(ctx, case, uu)
     elif kind == 'gen':
         eval_gen(ctx, case, uu)
+    elif kind == 'twins':
+        eval_twins(ctx, case, su, uu)
     else:
         raise ValueError(kind)
 
 
+def eval_twins(ctx, case, su, uu):
+    """Equal-but-different arguments in several orders (vlib/twins.py): the answer for an argument does not depend on
+    which equal-valued object of another type, or which other spelling of a case-insensitive string, was asked before."""
+    from vlib import twins
+    ctx.case(('twins', case['what'], repr(case.get('n', case.get('text')))))
+    if case['what'] == 'number':
+        n, lo, hi = case['n'], case.get('lo'), case.get('hi')
+        calls = []
+        for label, v in twins.numeric_twins(n) + [('str', str(n))]:
+            calls.append(('validate_integer(%s)' % label, lambda v=v: su.validate_integer(v, 'field', lo, hi)))
+            calls.append(('is_int_like(%s)' % label, lambda v=v: su.is_int_like(v)))
+            calls.append(('bool_from_string(%s)' % label, lambda v=v: su.bool_from_string(v)))
+        twins.order_independence(ctx, 'equal-valued-arguments-in-any-order', case, calls)
+    else:
+        text = case['text']
+        for fname, f in (('bool_from_string', lambda v: su.bool_from_string(v, strict=True)),
+                         ('is_valid_boolstr', lambda v: su.is_valid_boolstr(v)),
+                         ('is_int_like', lambda v: su.is_int_like(v)),
+                         ('validate_integer', lambda v: su.validate_integer(v, 'field')),
+                         ('check_string_length', lambda v: su.check_string_length(v, 'field', 1, 40)),
+                         ('is_uuid_like', lambda v: uu.is_uuid_like(v))):
+            calls = [('%s(%s)' % (fname, label), lambda v=v, f=f: f(v)) for label, v in twins.text_twins(text)]
+            first = twins.order_independence(ctx, 'equal-valued-arguments-in-any-order', case, calls)
+            twins.as_characters(ctx, 'str-subclass-answered-as-its-characters', case, first, plain='%s(str)' % fname,
+                                same=('%s(ci-same)' % fname, '%s(eq-without-hash)' % fname))
+
+
 from vlib import envmodes  # noqa: E402
-evaluate = envmodes.with_modes(_evaluate_plain, lazy=lambda case: True, warn=lambda case: True)
+evaluate = envmodes.with_modes(_evaluate_plain, lazy=lambda case: True, warn=lambda case: True,
+                               digits=lambda case: case.get('digit_limit') is None and 'pow10' not in repr(case))
+CONCURRENT = lambda case: case.get('digit_limit') is None and case.get('kind') != 'twins'   # noqa: E731
 
 
 # ----------------------------------------------------------------------
@@ -943,6 +974,21 @@ def run(ctx):
                 ctx.sample(case['kind'], case)
                 evaluate(ctx, case)
     ctx.exhaustive['12 documented words x all 82 letter-case spellings x 11 paddings x strict x 5 defaults'] = True
+    rt = ctx.rng('twins')
+    for i in range(ctx.pick(300, 20000)):
+        idx += 1
+        if not ctx.mine(idx):
+            continue
+        if i % 2:
+            n = rt.choice([0, 1, 7, 200, -5, rt.getrandbits(rt.choice([4, 16, 40, 70])) - rt.getrandbits(10)])
+            lo = rt.choice([None, n, n - 3])
+            hi = rt.choice([None, n, n + 3])
+            evaluate(ctx, dict(kind='twins', what='number', n=n, lo=lo, hi=hi))
+        else:
+            text = rt.choice(['True', 'yes', 'Off', 'n', 'T', 'maybe', 'Abc', '1', '12', 'ENABLED', 'nO',
+                              'ABCDEF01-2345-6789-abcd-ef0123456789', 'abcdef0123456789ABCDEF0123456789', 'x' * 41,
+                              ''.join(rt.choice('aAbBtTyYoOnNeEsS') for _ in range(rt.randrange(1, 6)))])
+            evaluate(ctx, dict(kind='twins', what='text', text=text))
     # every worker makes all the draws, so distinctness is checked over the whole number in one process
     for case in gen_cases(ctx):
         ctx.sample('gen', case)
